@@ -8,19 +8,27 @@ CONFIG = {
     "technique": "Lean 4 proof about an executable octet-level model of iri/src/relativize.rs (same branches, same index "
                  "arithmetic, panics explicit) against the RFC 3986 5.2 resolution model; model tied to the code by a "
                  "differential on Relativizer fields (Debug output) and relativize outputs",
-    "level_text": "Proof (all bases, all IRIs, all parent limits, kernel-checked, no native_decide) of the MODEL: (1) the "
-                  "full statements rel_inverse / rel_is_ref / rel_parents / rel_boundaries are REFUTED by kernel-checked "
-                  "witnesses (the code is wrong there: findings); (2) rel_inverse_partial: inside the decidable region "
-                  "`cleanCase` (same-document branches; path branches for rooted dot-free bases with a CleanTail) resolving "
-                  "the result with RFC 3986 5.2 gives back the IRI; rel_parents_inserted: at most `parents` '../' are "
-                  "inserted, for every input; rel_same_doc; rel_boundaries_partial. The model is the code by "
-                  "correspondence only: differential on Relativizer::new fields and relativize outputs (panic kinds "
-                  "included) over grammar-generated pairs and the exhaustive closed family of DESIGN 4.17; the region "
-                  "predicate itself is evaluated by the driver (m.clean) and cross-checked on every case.",
-    "level_note": "Octet strings are modelled as List Char with one Char per UTF-8 octet; RFC 3986 resolution is applied "
-                  "to octet strings (all delimiters are ASCII). BaseIri accessors are modelled by the Appendix-B split. "
-                  "The real resolver (oxiri) deviates from RFC 3986 on bases with dot segments / rootless bases (C09 "
-                  "findings): reported on the separate field `res`, not blamed on relativize.",
+    "level_text": "Proof (all octet strings base/IRI, all parent limits; kernel-checked, axioms propext/Classical.choice/"
+                  "Quot.sound only, no native_decide) about the MODEL of relativize.rs: (1) the full statements RelInverse, "
+                  "RelIsRef, RelParents, RelBoundaries are REFUTED by nine kernel-checked witnesses on IRIs that sophia's own "
+                  "validator accepts (findings); (2) rel_partial_all / rel_inverse_partial / rel_is_ref_partial / "
+                  "rel_parents_partial: inside the decidable region `cleanCase` (query or fragment tails after the complete "
+                  "common path; path branches and directory extension for dot-free base paths, rooted or rootless, cut "
+                  "strictly inside the path, under CleanTail; absolute-path tails for empty base paths) RFC 3986 5.2 resolution of the result gives back the IRI, the "
+                  "result has neither scheme nor authority, and its leading '..' segments are exactly the inserted ones; "
+                  "(3) for every input: at most `parents` '../' are inserted (rel_parents_inserted), same-document IRIs are "
+                  "never answered None (rel_same_doc), all slices are taken inside the common prefix "
+                  "(rel_boundaries_partial). The model is the code by correspondence only: differential on "
+                  "Relativizer::new fields (public Debug output) and on relativize outputs incl. panic kinds, over "
+                  "grammar-generated pairs and the closed family of DESIGN 4.17; `cleanCase` itself is evaluated by the "
+                  "driver (m.clean) on every case and no failure inside it is ever excused.",
+    "level_note": "Strings are octet strings (List Char, one Char per UTF-8 octet); RFC 3986 resolution is applied to octet "
+                  "strings (all delimiters are ASCII; that resolution commutes with UTF-8 encoding is not proved). BaseIri "
+                  "accessors are modelled by the Appendix-B split. Outside cleanCase (bases with dot segments, '../' to the top "
+                  "of a rootless base, slash-less rootless bases, authority-only differences) the code is right or wrong case by case: differential + ten "
+                  "findings. The real resolver (oxiri) deviates from RFC 3986 on bases with dot segments / rootless bases "
+                  "(C09 findings): reported on the separate field `res`, not blamed on relativize. Fix patch: "
+                  "notes/fixes/C17-relativize-side-conditions.diff.",
     "tables": [],
     "lean_targets": ["SophiaProofs.Props.C17", "SophiaProofs.Audit.C17"],
     "theorems": [],          # filled in below
